@@ -343,6 +343,11 @@ func ffTamperings(rng *rand.Rand, valid *ffTriple, others []*ffTriple, stranger 
 		t.Block.Signatures = map[string]string{}
 		// keep `under` distinct valid signers at most, all through one key
 		spell := []string{k, "0x" + k[2:], "0X" + strings.ToLower(k[2:]), "0x" + strings.ToLower(k[2:]), "0X" + k[2:4] + strings.ToLower(k[4:])}
+		if rng.Intn(2) == 0 {
+			// spellings that only a lax decoder maps to the same key: another
+			// two-character prefix, trailing garbage after the hex digits
+			spell = []string{k, "0Y" + k[2:], "zz" + k[2:], k + "Z", k + "zz", "  " + k[2:]}
+		}
 		for _, s := range spell {
 			t.Block.Signatures[s] = sig
 		}
@@ -358,10 +363,14 @@ func ffTamperings(rng *rand.Rand, valid *ffTriple, others []*ffTriple, stranger 
 // forgeResponse builds a response whose validator set consists of attacker
 // keys only, correctly signed by them, optionally copying the content of a
 // valid frame.
-func forgeResponse(rng *rand.Rand, attackers []*SimKey, base *ffTriple, index int, round int) *ffTriple {
+func forgeResponse(rng *rand.Rand, attackers []*SimKey, base *ffTriple, index int, round int, addr string) *ffTriple {
 	ps := []*peers.Peer{}
 	for i, a := range attackers {
-		ps = append(ps, mkPeer(a.K, fmt.Sprintf("evil:%d", i), fmt.Sprintf("evil%d", i)))
+		na := fmt.Sprintf("evil:%d", i)
+		if addr != "" {
+			na = addr // every forged validator "lives" at the forger's address
+		}
+		ps = append(ps, mkPeer(a.K, na, fmt.Sprintf("evil%d", i)))
 	}
 	t := &ffTriple{From: -1, Snapshot: []byte("forged state")}
 	if base != nil {
